@@ -293,6 +293,14 @@ pub(super) fn run(k: &K, ctx: &mut Ctx) -> Result<(), Failure> {
             } else {
                 &[ValueType::Ipv6PayloadLength, ValueType::UdpPayloadLengthIpv6, ValueType::TcpPayloadLengthIpv6, ValueType::Icmpv6PayloadLength]
             };
+            // an ICMPv4 timestamp message admits no payload at all: a builder that refuses one states a limit
+            // of a different kind (the fixed message size), truthfully (actual = the payload length > 0 =
+            // allowed); that is not a length field wrapping or a wrong maximum (preserving change C10l)
+            let (actual, max_allowed, _) = vtb(&e);
+            if b.tr == 4 && k.len > 0 && actual == k.len && max_allowed == 0 {
+                ctx.class("outcome:rejected-payload-not-admitted-by-message-type");
+                return Ok(());
+            }
             verdict(k, ctx, field, &l, false, Some(vtb(&e)), vts)?;
         }
         Out::Other(msg) => {
